@@ -311,10 +311,65 @@ def h_lex_line(line: str, triples: bool, maxlen: int, first: str):
         require(ch in ' \t\r\v\f\n', 'non-blank skipped at end', line, got)
 
 
+TXT_FRAGS = ['(a', '', ':b~1 c', 'g\x0ch "d e"', '# f', '~x /', '  ', ')']
+TXT_SEPS = ['\n', '\n\n', '\r\n', '\r', '\r\r\n', ' ', '\u2028']
+
+
+def h_lex_string(k: int, triples: bool, nf: int, ns: int, **sym):
+    """String input: line numbers count every LF / CRLF / CR line (blank
+    lines included), nothing else ends a line."""
+    from penman._lexer import PENMAN_RE, TRIPLE_RE, lex
+    from vflib import progs
+    from vflib.engine import bound_int
+    from vflib.oracles import ref_split_lines
+    pieces = []
+    for i in range(k):
+        fi = sym[f'f{i}']
+        bound_int(fi, 0, nf)
+        pieces.append(progs.pick(fi, TXT_FRAGS[:nf]))
+        if i < k - 1:
+            si = sym[f's{i}']
+            bound_int(si, 0, ns)
+            pieces.append(progs.pick(si, TXT_SEPS[:ns]))
+    text = ''.join(pieces)
+    want = []
+    for ln, line in enumerate(ref_split_lines(text), 1):
+        want += [(t, x, ln, o) for t, x, o in ref_lex_line(line, triples)]
+    try:
+        got = [(t.type, t.text, t.lineno, t.offset)
+               for t in lex(text, pattern=TRIPLE_RE if triples else PENMAN_RE)]
+    except Exception as exc:
+        raise Violation(f'lex raised {type(exc).__name__}: {exc}', text)
+    if want and want[-1][2] >= 3:
+        mark('third-line')
+    require(got == want, 'tokens of a string input differ from the '
+            'documented lexical grammar / line numbering', text, got, want)
+
+
+h_lex_string.params_for = lambda fixed: {
+    k: v for k, v in {**{f'f{i}': int for i in range(fixed['k'])},
+                      **{f's{i}': int for i in range(fixed['k'] - 1)}}.items()
+    if k not in fixed}
+
+
 def obligations(tier: str) -> List[dict]:
     obs = [{'name': 'E1 class languages / first sets / order', 'kind': 'e1',
             'fn': 'e1_languages', 'timeout': 120,
             'bound': 'unbounded length'}]
+    for trip in (False, True):
+        kk = 3 if tier == 'quick' else 4
+        nf, ns = (5, 5) if tier == 'quick' else (8, 7)
+        for f0 in range(nf):
+            if tier == 'quick' and trip and f0 % 2:
+                continue
+            obs.append({'name': f'E2 lex string input k={kk} triples={trip} '
+                                f'f0={f0}', 'kind': 'e2',
+                        'fn': 'h_lex_string',
+                        'fixed': {'k': kk, 'triples': trip, 'f0': f0,
+                                  'nf': nf, 'ns': ns},
+                        'timeout': 300 if tier == 'quick' else 3000,
+                        'bound': f'{kk} fragments x separators',
+                        'need_marks': ['third-line'] if f0 == 0 else []})
     if tier == 'quick':
         for trip in (False, True):
             obs.append({'name': f'E2 lex line len<=2 triples={trip}',
